@@ -530,7 +530,7 @@ class Session:
         if not obs:
             return
         if timeout_s is None:
-            timeout_s = 600 if tier == "quick" else 1200
+            timeout_s = int(os.environ.get("VERIF_TIMEOUT", "0")) or (600 if tier == "quick" else 1200)
         cdir = os.path.join(self.scratch, config + tag)
         gl = os.path.join(cdir, "glam")
         weave.copy_repo(gl)
